@@ -12,7 +12,14 @@ fn entitled(r: &Runner, op: &Op) -> Vec<String> {
     match op {
         Op::SwapInput { vamm, .. } | Op::SwapOutput { vamm, .. } | Op::SettleFunding { vamm } => vec![r.obs.vamms[*vamm].margin_engine.clone()],
         Op::VammConfig { vamm, .. } | Op::VammOwner { vamm, .. } => vec![r.obs.vamms[*vamm].owner.clone()],
-        Op::SetOpen { vamm, .. } => vec![r.obs.vamms[*vamm].owner.clone(), r.obs.vamms[*vamm].insurance_fund.clone()],
+        // the insurance fund the vAMM was given (from the history), not whatever its config reports
+        Op::SetOpen { vamm, .. } => {
+            let mut v = vec![r.obs.vamms[*vamm].owner.clone()];
+            if let Some(f) = &r.model.vamm_if[*vamm] {
+                v.push(f.clone());
+            }
+            v
+        }
         Op::EngineConfig { .. } => vec![e.owner.clone()],
         Op::UpdatePauser { .. } | Op::AddWhitelist { .. } | Op::RemoveWhitelist { .. } | Op::SetPause { .. } => vec![e.pauser.clone()],
         Op::IfWithdraw { .. } => vec![r.w.addrs.engine.clone()],
@@ -153,7 +160,13 @@ pub fn step(ctx: &Ctx, w: &World, ev: &mut Ev) {
     let e = ctx.pre.eng.clone().unwrap_or_default();
     let ent: Vec<String> = match &ctx.step.op {
         Op::VammConfig { vamm, .. } | Op::VammOwner { vamm, .. } => vec![ctx.pre.vamms[*vamm].owner.clone()],
-        Op::SetOpen { vamm, .. } => vec![ctx.pre.vamms[*vamm].owner.clone(), ctx.pre.vamms[*vamm].insurance_fund.clone()],
+        Op::SetOpen { vamm, .. } => {
+            let mut v = vec![ctx.pre.vamms[*vamm].owner.clone()];
+            if let Some(f) = &ctx.model.vamm_if[*vamm] {
+                v.push(f.clone());
+            }
+            v
+        }
         Op::EngineConfig { .. } => vec![e.owner.clone()],
         Op::UpdatePauser { .. } | Op::AddWhitelist { .. } | Op::RemoveWhitelist { .. } | Op::SetPause { .. } => vec![e.pauser.clone()],
         Op::IfOwner { .. } | Op::AddVamm { .. } | Op::RemoveVamm { .. } => vec![ctx.pre.if_owner.clone()],
